@@ -8,8 +8,16 @@ Protocol (one self-contained case per line, see lean/OFCore/OFCore/Drv/Api.lean)
     api yaml  <world> Y <test> (;; …)*       -> PASS|FAIL …
     api phist <ord:val,…> <probe,…>          -> served history | API reading at each probe
     api vforms <ord,…> <end|-> <probe,…>     -> served formulas | formula in force at each probe
+    api scale <thr~val;…> <probe,…>          -> served rows of /parameter/<scale> | brackets in force at each probe
     api params <J>                           -> ids listed by /parameters
-    api echo <text>                          -> <text>   (listing cases carried by the oracle only)
+    api echo <text>                          -> <text>   (listing / application cases carried by the oracle only)
+
+Round 2, carried by the adapter and the oracle (no model): every answer of /calculate and /trace — accepted or
+refused — carries the served system's `Country-Package` / `Country-Package-Version`; a situation the builder refuses
+is answered with the builder's own error (status = its code or 400, body = its path -> message tree: the path of
+the faulty value); `api echo` cases of op `app`: `/` (300, points to /spec), `/spec` (its paths are the routes the
+application serves and vice versa, its entity schemas list exactly the system's variables with their JSON types and
+enum members and the roles of the group entities, its `servers` entry is the request's host).
 
 `<world>` tabulates what an INDEPENDENT engine run answers for the document of the block (direct
 `SimulationBuilder().build_from_entities` + `Simulation.calculate`, computed when the case is
@@ -129,7 +137,8 @@ def request_block(kind: str, doc):
     toks = world_tokens(doc, accepted, ids, vecs, with_entities=(kind == "trace")) + ["R"] + A.j_tokens(doc)
     exp = {"accepted": accepted, "ids": ids, "slots": [list(s) for s in slots],
            "vecs": [[v, p, list(r)] for (v, p), r in vecs.items()]}
-    return toks, {"kind": kind, "doc": doc, "engine": exp}
+    refusal = None if accepted or not isinstance(doc, dict) else A.builder_refusal(doc)
+    return toks, {"kind": kind, "doc": doc, "engine": exp, "refusal": refusal}
 
 
 # --------------------------------------------------------------------------------------
@@ -187,13 +196,40 @@ def canon_trace(status, body, engine) -> str:
     return " ".join(out)
 
 
+def app_level(req, status, body, headers):
+    """What the application adds around the handler: the package headers on every answer, and the
+    builder's own refusal (status and path -> message tree) for a situation the builder refuses.
+    -> None, or the text of the deviation"""
+    want = A.package_headers()
+    for k, v in want.items():
+        if headers.get(k) != v:
+            return f"HEADERS {k}: {headers.get(k)!r}, the served package is {v!r}"
+    ref = req.get("refusal")
+    if ref is not None and (status != ref["status"] or body != ref["error"]):
+        return f"ERROR-ANSWER status {status} body {json.dumps(body, sort_keys=True)[:300]}; the builder refuses with " \
+               f"{ref['status']} {json.dumps(ref['error'], sort_keys=True)[:300]}"
+    return None
+
+
 def answer(cl, req) -> str:
     if req["kind"] == "bad":        # a body that is not JSON
         r = cl.post("/" + req["route"], data=req["body"], content_type="application/json")
-        return "ERR" if r.status_code != 200 else "OK?"
+        if r.status_code == 200:
+            return "OK?"
+        return "ERR" if r.status_code == 400 and isinstance(r.get_json(silent=True), dict) and "error" in r.get_json(silent=True) \
+            else f"ERROR-ANSWER not-json body answered with {r.status_code}"
+    route = "/calculate" if req["kind"] == "calc" else "/trace"
+    posted = copy.deepcopy(req["doc"])
+    status, body, headers = A.post_full(cl, route, posted)
+    if posted != req["doc"]:                # the caller's payload object is the caller's
+        return "ERROR-ANSWER the posted object was modified"
+    bad = app_level(req, status, body, headers)
+    if bad is not None:
+        return bad
+    body = body if status == 200 else None
     if req["kind"] == "calc":
-        return canon_calc(*A.post(cl, "/calculate", copy.deepcopy(req["doc"])), doc=req["doc"])
-    return canon_trace(*A.post(cl, "/trace", copy.deepcopy(req["doc"])), req["engine"])
+        return canon_calc(status, body, doc=req["doc"])
+    return canon_trace(status, body, req["engine"])
 
 
 def impl_seq(reqs) -> str:
@@ -294,12 +330,44 @@ def yaml_of_tests(tests, single=False) -> str:
     return s
 
 
+def selected_tests(tests, name_filter):
+    """indices of the tests of a file (named t0, t1, ... in the file `case.yaml`) that the runner's option
+    `name_filter` keeps: the text occurs in the file's base name or in the test's name, or is one of its keywords"""
+    if name_filter is None:
+        return list(range(len(tests)))
+    return [k for k, t in enumerate(tests)
+            if name_filter in "case" or name_filter in f"t{k}" or name_filter in ((t.get("extra") or {}).get("keywords") or [])]
+
+
+def impl_yaml_sequence(pl, tests) -> str:
+    """one file per test, run one after the other in this process, each against its own baseline system"""
+    verdicts = []
+    for t in tests:
+        status, outs = A.run_yaml_tests(A.baseline_system(t.get("baseline") or ""), yaml_of_tests([t]), "q", pl.get("options") or None,
+                                        pl.get("how", "file"))
+        if [o.get("name") for o in outs] != ["t0"]:
+            return f"COLLECTION ran {[o.get('name') for o in outs]} for one test (exit status {status})"
+        v = "PASS" if outs[0]["outcome"] == "passed" else "FAIL"
+        if (status == 0) != (v == "PASS"):
+            return "STATUS-MISMATCH " + v
+        verdicts.append(v)
+    return " ".join(verdicts)
+
+
 def impl_yaml(pl) -> str:
     tests = [materialise(t) for t in pl["tests"]]
+    if any(t.get("baseline") for t in tests):
+        return impl_yaml_sequence(pl, tests)
     status, outs = A.run_yaml_tests(A.system(), yaml_of_tests(tests, pl.get("single", False)), "t", pl.get("options") or None,
                                     pl.get("how", "file"))
-    if len(outs) != len(tests):
-        return f"COLLECTION {len(outs)} outcomes for {len(tests)} tests (exit status {status})"
+    selected = pl.get("selected")
+    if selected is None:
+        selected = list(range(len(tests)))
+    ran = [o.get("name") for o in outs]
+    if ran != [f"t{k}" for k in selected]:
+        return f"COLLECTION ran {ran}, the file holds {len(tests)} tests of which {['t%d' % k for k in selected]} are selected (exit status {status})"
+    if not selected:
+        return "-"
     verdicts = ["PASS" if o["outcome"] == "passed" else "FAIL" for o in outs]
     if (status == 0) != all(v == "PASS" for v in verdicts):
         return "STATUS-MISMATCH " + " ".join(verdicts)
@@ -446,6 +514,73 @@ def impl_params(pl) -> str:
     return ",".join(A.hx(k) for k in sorted(body, key=lambda s: s.encode())) or "-"
 
 
+JSON_TYPES = {"int": "integer", "float": "number", "bool": "boolean", "str": "string", "date": "string", "enum": "string"}
+
+
+def impl_app(pl) -> str:
+    """K-only: the routes around the handlers — `/`, `/spec` against the application's own routes and
+    the system's own variables, the package headers on listings and on 404s."""
+    import re
+    cl = A.client(pl["seed"])
+    tbs = A.system(pl["seed"])
+    want_headers = A.package_headers(pl["seed"])
+    for route in ("/", "/spec", "/parameters", "/variables", "/entities", "/variable/nope", "/parameter/nope", "/nosuchroute"):
+        r = cl.get(route)
+        for k, v in want_headers.items():
+            if r.headers.get(k) != v:
+                return f"X:headers {route} {k}={r.headers.get(k)!r}"
+    root = cl.get("/")
+    if root.status_code != 300 or "/spec" not in str((root.get_json(silent=True) or {}).get("welcome")):
+        return f"X:root {root.status_code} {root.get_json(silent=True)}"
+    r = cl.get("/spec")
+    spec = r.get_json(silent=True)
+    if r.status_code != 200 or not isinstance(spec, dict):
+        return f"X:spec status {r.status_code}"
+    if spec.get("servers") != [{"url": "http://localhost"}]:
+        return f"X:spec servers {spec.get('servers')}"
+    if want_headers["Country-Package-Version"] not in str(spec.get("info", {}).get("version")):
+        return f"X:spec version {spec.get('info', {}).get('version')}"
+    served = set()
+    for rule in cl.application.url_map.iter_rules():
+        if rule.endpoint == "static":
+            continue
+        served.add(re.sub(r"<(?:\w+:)?\w+>", "{}", rule.rule))
+    listed = {re.sub(r"\{\w+\}", "{}", p_) for p_ in spec.get("paths", {})}
+    if listed != served - {"/"}:
+        return f"X:spec paths {sorted(listed)} <> routes {sorted(served)}"
+    for p_, ops in spec["paths"].items():           # the method the spec documents is one the route accepts
+        rule = next(x for x in cl.application.url_map.iter_rules() if re.sub(r"<(?:\w+:)?\w+>", "{}", x.rule) == re.sub(r"\{\w+\}", "{}", p_))
+        if any(m.upper() not in rule.methods for m in ops):
+            return f"X:spec methods {p_} {sorted(ops)} <> {sorted(rule.methods)}"
+    schemas = spec.get("components", {}).get("schemas", {})
+    names = dict(A.VARS)
+    for e in tbs.entities:
+        sch = schemas.get(e.key.title())
+        if not isinstance(sch, dict):
+            return f"X:spec no schema for {e.key}"
+        want = {}
+        if not e.is_person:
+            want.update({(r_.plural or r_.key): {"type": "array", "items": {"type": "string"}} for r_ in e.roles})
+        for name, var in tbs.variables.items():
+            if var.entity.key != e.key:
+                continue
+            vt = names[name][1] if name in names else "float"          # dv<k> of the generated systems
+            ap = {"type": JSON_TYPES[vt]}
+            if vt == "enum":
+                ap["enum"] = list(A.ENUM_NAMES)
+            want[name] = {"type": "object", "additionalProperties": ap}
+        if sch.get("properties") != want or sch.get("additionalProperties") is not False:
+            diff = sorted(set(sch.get("properties", {})) ^ set(want)) or [k for k in want if sch["properties"].get(k) != want[k]]
+            return f"X:spec schema of {e.key}: {diff[:6]}"
+    sit = schemas.get("SituationInput", {}).get("properties")
+    if sit != {e.plural: {"type": "object", "additionalProperties": {"$ref": f"#/components/schemas/{e.key.title()}"}} for e in tbs.entities}:
+        return f"X:spec situation schema {sit}"
+    tr = schemas.get("Trace", {}).get("properties", {}).get("entitiesDescription", {}).get("properties")
+    if tr != {e.plural: {"type": "array", "items": {"type": "string"}} for e in tbs.entities}:
+        return f"X:spec trace entities {tr}"
+    return "same"
+
+
 def scale_at(api_brackets, date: str):
     keys = [k for k in api_brackets if k <= date]
     if not keys:
@@ -463,6 +598,11 @@ def impl_scale(pl) -> str:
     bad = param_meta_diff(body, node)
     if bad:
         return "META " + bad
+    def show_row(row: dict, drop_null=False) -> str:
+        items = sorted((Fraction(float(k)), None if v is None else Fraction(float(v))) for k, v in row.items())
+        items = [(t, v) for t, v in items if not (drop_null and v is None)]
+        return "/".join(f"{A.rat(t)}>{'n' if v is None else A.rat(v)}" for t, v in items) or "-"
+    at = []
     for o in pl["probes"]:
         d = datetime.date.fromordinal(o).isoformat()
         api = scale_at(br, d)
@@ -472,7 +612,9 @@ def impl_scale(pl) -> str:
         got = {} if api is None else {Fraction(float(k)): Fraction(float(v)) for k, v in api.items() if v is not None}
         if got != eng:
             return f"DIFF {d}: api {api} engine {dict(zip(sc.thresholds, vals))}"
-    return "same"
+        at.append("n" if api is None else show_row(api, drop_null=True))
+    shown = [f"{_ord(d)}={'n' if br[d] is None else show_row(br[d])}" for d in sorted(br)]
+    return f"{','.join(shown) or '-'} | {','.join(at) or '-'}"
 
 
 def impl_near(pl) -> str:
@@ -569,6 +711,8 @@ def impl(case: Case) -> str:
         return impl_params(pl)
     if k == "scale":
         return impl_scale(pl)
+    if k == "app":
+        return impl_app(pl)
     if k == "bad":
         return "BAD"
     raise ValueError(k)
@@ -595,7 +739,18 @@ def _slot_type(var: str) -> str:
     return "strn" if var in A.BOUNDED else (A.vtype(var, "ext") or "unknown")
 
 
+def oracle_app_level(kind: str, out: str):
+    if out.startswith("HEADERS"):
+        return ("app:package-headers", out[:400])
+    if out.startswith("ERROR-ANSWER"):
+        return (f"{kind}:error-answer", "a refused situation is not answered with the builder's own error: " + out[:600])
+    return None
+
+
 def oracle_calc(req, out: str):
+    v = oracle_app_level("calc", out)
+    if v is not None:
+        return v
     eng = req["engine"]
     doc = req["doc"]
     vecs = {(v, p): r for v, p, r in eng["vecs"]}
@@ -659,6 +814,9 @@ def oracle_calc(req, out: str):
 
 
 def oracle_trace(req, out: str):
+    v = oracle_app_level("trace", out)
+    if v is not None:
+        return v
     eng = req["engine"]
     vecs = {(v, p): r for v, p, r in eng["vecs"]}
     engine_ok = eng["accepted"] and all(r[0] == "ok" for r in vecs.values())
@@ -767,7 +925,7 @@ def blame(t):
         quiet = {k: v for k, v in opts.items() if k not in ("verbose", "aggregate", "max_depth")}
         whole = {k: t[k] for k in ("name", "input", "period", "absolute_error_margin", "relative_error_margin", "extra", "output")
                  if k in t}
-        _, outs = A.run_yaml_tests(A.system(), yaml_of_tests([whole]), "blame", quiet or None)
+        _, outs = A.run_yaml_tests(A.baseline_system(t.get("baseline") or ""), yaml_of_tests([whole]), "blame", quiet or None)
         want = expected_verdict(t)
         if len(outs) == 1 and want is not None and (outs[0]["outcome"] == "passed") == want:
             return ("option", "verbose" if "verbose" in opts else
@@ -785,12 +943,12 @@ def blame(t):
         else:
             output = {x["inst"][0]: {x["inst"][1]: {x["var"]: node}}}
         sub = {k: t[k] for k in ("name", "input", "period", "engine", "absolute_error_margin", "relative_error_margin",
-                                 "extra", "options") if k in t}
+                                 "extra", "options", "baseline") if k in t}
         sub.update(output=output, layout=x["layout"], expectations=[x])
         want = expected_verdict(sub)
         if want is None:
             continue
-        _, outs = A.run_yaml_tests(A.system(), yaml_of_tests([sub]), "blame", t.get("options") or None)
+        _, outs = A.run_yaml_tests(A.baseline_system(t.get("baseline") or ""), yaml_of_tests([sub]), "blame", t.get("options") or None)
         if len(outs) == 1 and (outs[0]["outcome"] == "passed") != want:
             return (_slot_type(x["var"]), x["layout"])
     return ("mixed", "mixed")
@@ -837,6 +995,8 @@ def oracle(case: Case, out: str):
             return ("history-dependent", out[:600])
         for r, o in zip(pl["reqs"], out.split(" ;; ")):
             if r["kind"] == "bad":
+                if o.startswith("ERROR-ANSWER"):
+                    return ("calc:error-answer", "a body that is not JSON is not answered with 400 and an error message: " + o)
                 if o != "ERR":
                     return ("calc:value-without-engine-value", "a body that is not JSON was answered")
                 continue
@@ -847,7 +1007,8 @@ def oracle(case: Case, out: str):
     if k == "near":
         return oracle_near(pl, out)
     if k == "yaml":
-        return oracle_yaml(pl["tests"], out)
+        sel = pl.get("selected")
+        return oracle_yaml(pl["tests"] if sel is None else [pl["tests"][i] for i in sel], out)
     if k in ("phist", "vforms", "scale") and out.startswith("META"):
         return ("listing:" + ("variable" if k == "vforms" else "parameter") + "-meta", f"{pl.get('id') or pl.get('var')}: {out[:400]}")
     if k == "phist":
@@ -881,8 +1042,12 @@ def oracle(case: Case, out: str):
             return ("listing:parameters", f"/parameters lists {out}, the tree holds {pl['want']}")
         return None
     if k == "scale":
-        if out != "same":
+        if out.startswith(("DIFF", "NOBRACKETS")):
             return ("listing:scale", out[:500])
+        return None
+    if k == "app":
+        if out != "same":
+            return ("app:" + out.split(" ")[0][2:], out[:600])
         return None
     return None
 
@@ -1260,10 +1425,13 @@ def short_input(inp, form: str, period):
     return {pl: {iid: values(inst) for iid, inst in table.items()} for pl, table in inp.items()}
 
 
-def finish_test(name, inp, period, margins, output, layout, group=None, extra=None, options=None, form=None):
-    """run the independent engine on the test's situation and tabulate it"""
+def finish_test(name, inp, period, margins, output, layout, group=None, extra=None, options=None, form=None, baseline=""):
+    """run the independent engine on the test's situation and tabulate it; `baseline`: which system run_tests is handed
+    (A.baseline_system) — the engine run is that of the same legislation (such a test names no reform / extension)"""
     extra = dict(extra or {})
     variant = "+".join(k for k, key in (("reform", "reforms"), ("ext", "extensions")) if extra.get(key))
+    if baseline:
+        variant = A.BASELINE_VARIANT[baseline]
     exps = expectations_of(output or {}, None if period is None else str(period), margins, None, variant)
     pairs = [(x["var"], x["period"]) for x in exps if x["period"] is not None]
     accepted, ids, vecs = A.engine_run(inp, pairs, variant, extra.get("max_spiral_loops"))
@@ -1279,7 +1447,7 @@ def finish_test(name, inp, period, margins, output, layout, group=None, extra=No
         extra["yaml_input"] = short_input(inp, form, period)
     t = {"name": name, "input": inp, "period": period, "layout": layout, "group": group, **margins,
          "engine": {"accepted": accepted, "ids": ids, "vecs": [[v, p, list(r)] for (v, p), r in vecs.items()]},
-         "expectations_tok": exps, "extra": extra, "options": options or {}}
+         "expectations_tok": exps, "extra": extra, "options": options or {}, "baseline": baseline}
     if output is not None:
         t["output_tok"] = A.j_tokens(output, f32=False)
     world = world_tokens(inp, accepted, ids, vecs, extra_vars=[x["var"] for x in exps], with_keys=True, variant=variant)
@@ -1316,7 +1484,7 @@ def materialise(t):
     return t
 
 
-def gen_atoms(rng: random.Random, inp, nvars: int, type_pick=None, variant="", msl=None, tperiod=None):
+def gen_atoms(rng: random.Random, inp, nvars: int, type_pick=None, variant="", msl=None, tperiod=None, force_var=None):
     """variables to assert on, with the engine's actual vectors"""
     ids = {"persons": list(inp["persons"]), "households": list(inp["households"])}
     names = list(A.VARS) + (list(A.EXT_VARS) if "ext" in variant else [])
@@ -1327,6 +1495,8 @@ def gen_atoms(rng: random.Random, inp, nvars: int, type_pick=None, variant="", m
     if type_pick:
         names = [v for v in names if _slot_type(v) == type_pick]
     chosen = rng.sample(names, min(nvars, len(names)))
+    if force_var:
+        chosen = [force_var] + [v for v in chosen if v != force_var][:max(0, nvars - 1)]
     pairs = []
     for var in dict.fromkeys(chosen):
         dp = (A.VARS.get(var) or A.EXT_VARS[var])[2]
@@ -1369,15 +1539,20 @@ def gen_extras(rng: random.Random):
 
 
 def gen_yaml_group(rng: random.Random, name: str, type_pick=None, relation=None, mkind=None, three=False, options=None,
-                   plain=False):
+                   plain=False, baseline="", force_var=None):
     """-> list of (test payload, tokens): one test, or the same expectations in the three layouts"""
-    extra, form = ({}, None) if plain else gen_extras(rng)
+    extra, form = ({}, None) if plain or baseline else gen_extras(rng)
     variant = "+".join(k for k, key in (("reform", "reforms"), ("ext", "extensions")) if extra.get(key))
+    if baseline:
+        variant = A.BASELINE_VARIANT[baseline]
     inp = gen_test_input(rng, single=form in ("variables", "singular"))
+    if force_var == "p_f_int":          # its input, non-zero in every month a test may ask for: the legislations then disagree
+        for person in inp["persons"].values():
+            person["p_int"] = {m: rng.choice([1, 2, 3, 5, -4, 12]) for m in ("2017-12", "2018-01", "2018-02", "2018-03")}
     # the test's period: other months, another spelling, an integer year (YAML types an unquoted 2018 as int)
     tperiod = TEST_PERIOD if plain else rng.choice([TEST_PERIOD] * 4 + ["2017-12", "2017-12", "2018-03", "month:2018-02", 2018])
     atoms, ids = gen_atoms(rng, inp, 1 if three or type_pick else rng.choice([1, 2, 3]), type_pick, variant,
-                           extra.get("max_spiral_loops"), tperiod)
+                           extra.get("max_spiral_loops"), tperiod, force_var)
     if not atoms:
         return []
     margins, am, rm = margin_config(rng, atoms[0][0], mkind)
@@ -1401,7 +1576,7 @@ def gen_yaml_group(rng: random.Random, name: str, type_pick=None, relation=None,
             for var, per, exps in built:
                 place(output, lay, var, per, exps, ids)
             out.append(finish_test(f"{name}-{lay}", inp, tperiod, margins, output, lay, group=g, extra=extra,
-                                   options=options, form=form))
+                                   options=options, form=form, baseline=baseline))
         return out
     output = {}
     lay0 = None
@@ -1419,8 +1594,24 @@ def gen_yaml_group(rng: random.Random, name: str, type_pick=None, relation=None,
             place(output, lay, var, per, [e for _, e in pairs_], {**ids, pl: [i for i, _ in pairs_]})
             continue
         place(output, lay, var, per, exps, ids)
-    out.append(finish_test(name, inp, tperiod, margins, output, lay0, extra=extra, options=options, form=form))
+    out.append(finish_test(name, inp, tperiod, margins, output, lay0, extra=extra, options=options, form=form, baseline=baseline))
     return out
+
+
+def gen_yaml_sysseq(rng: random.Random, name: str):
+    """YAML tests run one after the other IN ONE PROCESS against different systems of the same country package (the
+    fixed system, the system with the reform's legislation, a Reform object of the fixed system, the system with the
+    extension's variable) and back: each must be judged against the system it is run on, whatever ran before."""
+    kinds = ["", "reform", "reformobj", "ext"]
+    first = rng.choice(kinds)
+    seq = [first, rng.choice([k for k in kinds if A.BASELINE_VARIANT[k] != A.BASELINE_VARIANT[first]])]
+    seq += [rng.choice(kinds) for _ in range(rng.choice([1, 2]))]
+    tests = []
+    for j, b in enumerate(seq):
+        # p_f_int is what the legislations disagree on (2 * p_int + 1 against 3 * p_int + 1)
+        tests += gen_yaml_group(rng, f"{name}s{j}", plain=True, baseline=b, force_var="p_f_int" if rng.random() < 0.85 else None,
+                                relation=rng.choice(["equal", "equal", "beyond"]), mkind=rng.choice(["none", "abs"]))
+    return tests
 
 
 def gen_options(rng: random.Random):
@@ -1524,9 +1715,13 @@ def gen_yaml_odd(rng: random.Random, name: str, options=None):
 
 
 def mk_yaml_case(tests_toks, tags=(), claimed=True, options=None, single=False) -> Case:
-    line = "api yaml " + " ;; ".join(" ".join(toks) for _, toks in tests_toks)
+    selected = selected_tests([t for t, _ in tests_toks], (options or {}).get("name_filter"))
+    line = "api yaml " + " ;; ".join(" ".join(tests_toks[k][1]) for k in selected) if selected else "api echo -"
     how = ["file", "file", "list", "dir", "yml"][len(line) % 5]
-    payload = {"op": "yaml", "tests": [t for t, _ in tests_toks], "options": options or {}, "single": single, "how": how}
+    payload = {"op": "yaml", "tests": [t for t, _ in tests_toks], "options": options or {}, "single": single, "how": how,
+               "selected": selected}
+    if any(t.get("baseline") for t, _ in tests_toks):
+        tags = tuple(tags) + ("system-sequence",)
     tags = ("yaml", "paths:" + how) + tuple(tags) + tuple("opt:" + k for k in (options or {})) + (("single-mapping",) if single else ())
     return Case(line=line, payload=payload, claimed=claimed, tags=tags)
 
@@ -1580,8 +1775,11 @@ def listing_cases(seed: int):
                                                     "probes": probes}, tags=("listing", "phist")))
             elif isinstance(child, Scale):
                 into[name] = "s"
-                out.append(Case(line="api echo same", payload={"op": "scale", "seed": seed, "id": child.name, "probes": probes[1:]},
-                                tags=("listing", "scale", "K-only")))
+                key = "rate" if "rate" in child.brackets[0].children else "amount"
+                hist = lambda par: ",".join(f"{_ord(e.instant_str)}:{pval_token(e.value)}" for e in par.values_list) or "-"
+                brs = ";".join(f"{hist(b.children['threshold'])}~{hist(b.children[key])}" for b in child.brackets)
+                out.append(Case(line=f"api scale {brs} {','.join(map(str, probes[1:]))}",
+                                payload={"op": "scale", "seed": seed, "id": child.name, "probes": probes[1:]}, tags=("listing", "scale")))
             elif isinstance(child, ParameterNode):
                 into[name] = {}
                 walk(child, into[name])
@@ -1599,6 +1797,7 @@ def listing_cases(seed: int):
     want = ",".join(A.hx(i) for i in sorted(ids, key=lambda s: s.encode())) or "-"
     out.append(Case(line="api params " + " ".join(A.j_tokens(tree)), payload={"op": "params", "seed": seed, "want": want},
                     tags=("listing", "params")))
+    out.append(Case(line="api echo same", payload={"op": "app", "seed": seed}, tags=("listing", "app", "K-only")))
     dated = dict(A.dated_variables(seed)) if seed is not None else {}
     dated["p_dated"] = (["0001-01-01", "2015-06-01"], "2019-12-31")
     for name, (_, _, _, is_input) in (A.VARS.items() if seed is None else [("p_f_int", A.VARS["p_f_int"]), ("h_enum", A.VARS["h_enum"])]):
@@ -1618,15 +1817,16 @@ def malformed_lines():
     bad = ["api", "api calc", "api calc R", "api calc R {", "api calc R { k70 }", "api calc T 70 nosuchtype R { }", "api calc R n n",
            "api trace", "api seq", "api seq X R { }", "api yaml", "api yaml Y", "api yaml Y p~ a ~ r ~", "api yaml Y p~ a ~ r ~ o [ ]",
            "api phist", "api phist 1:i1", "api phist x:i1 1", "api vforms 1 2", "api vforms a - 1", "api params", "api params { k70",
-           "api echo", "api nosuch 1", "api calc V 70 70 70 ok zz ; R { }", "api calc X 70 70 x R { }", "api yaml Y p~ a d1/0 r ~ o { }"]
+           "api echo", "api scale", "api scale 1:i0 1", "api scale 1:i0~x:i1 1", "api nosuch 1", "api calc V 70 70 70 ok zz ; R { }", "api calc X 70 70 x R { }", "api yaml Y p~ a d1/0 r ~ o { }"]
     return [Case(line=l, payload={"op": "bad"}, tags=("malformed",)) for l in bad]
 
 
 def generate(rng: random.Random, tier: str):
     A.system()
     quick = tier == "quick"
-    n_calc, n_trace, n_seq, n_yaml_files, n_odd, n_sys = (450, 150, 90, 110, 60, 8) if quick else (4500, 1400, 500, 1000, 400, 40)
+    n_calc, n_trace, n_seq, n_yaml_files, n_odd, n_sys = (450, 150, 90, 100, 60, 8) if quick else (4500, 1400, 500, 1000, 400, 40)
     n_near = 150 if quick else 2000
+    n_sysseq = 24 if quick else 300
     out = []
     for k in range(n_calc):
         doc = gen_doc(rng)
@@ -1652,7 +1852,14 @@ def generate(rng: random.Random, tier: str):
         for j in range(1 if single else rng.choice([3, 4, 5, 6])):
             tests += gen_yaml_group(rng, f"f{k}t{j}", three=(not single) and rng.random() < 0.25, options=options)
         if tests:
+            if rng.random() < 0.15:        # the runner's option name_filter: by test name, file name, keyword; nothing selected
+                kws = sorted({w for t, _ in tests for w in ((t.get("extra") or {}).get("keywords") or [])})
+                options = dict(options, name_filter=rng.choice(["t1", "t0", "t", "case", "as", "alph", "zz", "t%d" % (len(tests) - 1)] + kws * 4))
             out.append(mk_yaml_case(tests, options=options, single=single and len(tests) == 1))
+    for k in range(n_sysseq):
+        tests = gen_yaml_sysseq(rng, f"q{k}")
+        if tests:
+            out.append(mk_yaml_case(tests))
     for k in range(n_odd):
         t, toks, claimed, options = gen_yaml_odd(rng, f"odd{k}", gen_options(rng) if rng.random() < 0.3 else None)
         group = [(t, toks)]
@@ -1725,11 +1932,13 @@ def neighbours(case: Case):
     """drop one test of a YAML file / one request of a sequence / one slot of a document"""
     pl = case.payload
     out = []
-    if pl["op"] == "yaml" and len(pl["tests"]) > 1:
+    if pl["op"] == "yaml" and len(pl["tests"]) > 1 and case.line.startswith("api yaml "):
         blocks = case.line[len("api yaml "):].split(" ;; ")
+        sel = pl.get("selected") or list(range(len(pl["tests"])))
+        opts = {k_: v for k_, v in (pl.get("options") or {}).items() if k_ != "name_filter"}
         for k in range(len(blocks)):
-            out.append(Case(line="api yaml " + blocks[k], payload={"op": "yaml", "tests": [pl["tests"][k]],
-                                                                  "options": pl.get("options") or {}}, tags=("neighbour",)))
+            out.append(Case(line="api yaml " + blocks[k], payload={"op": "yaml", "tests": [pl["tests"][sel[k]]],
+                                                                  "options": opts}, tags=("neighbour",)))
     elif pl["op"] == "seq":
         blocks = case.line[len("api seq "):].split(" ;; ")
         for k, r in enumerate(pl["reqs"]):
@@ -1764,8 +1973,9 @@ PROP = Prop(
                 "render(engine value), keeps every other leaf and the whole key structure; it answers iff the engine has a value "
                 "for every slot; answers are fixed points; /trace reports the same values under the canonical period key; the "
                 "verdict of a YAML test is 'pass' iff every expectation of the normalised layouts holds within the margins "
-                "(<= at the margin, fail just beyond), the three layouts agree; parameter histories and formula dates as served "
-                "read back to the engine's value on every day (partial: scales left to the correspondence). The handler's "
+                "(<= at the margin, fail just beyond), the verdict is monotone in the margins, the three layouts agree and denote the "
+                "same elementary assertions; parameter histories, formula dates and scale rows as served read back to the engine's "
+                "value on every day (scales: unless the recorded deviation of build_api_scale applies). The handler's "
                 "statelessness is a property of the model by construction and of the code by the sequence correspondence only."),
     extra_lean_files=["OFCore/Api.lean", "OFCore/Lemmas/Api.lean", "OFCore/Drv/Api.lean"],
     rule=("a programmatic tax-benefit system (person + household with adults/children; input and formula variables of every "
@@ -1792,11 +2002,22 @@ PROP = Prop(
           "spellings / as an integer year, integer year keys in `output`, margins as quoted numbers, the three input layouts of "
           "build_from_dict (entities, singular keys, variables only) with and without the default period, a person left out of "
           "every household, files holding one test as a mapping, run_tests on a path / a list / a directory / a .yml file, the "
-          "options verbose+max_depth(+aggregate), only_variables, ignore_variables (modelled: `shouldIgnore`); bodies that are "
+          "options verbose+max_depth(+aggregate), only_variables, ignore_variables (modelled: `shouldIgnore`), name_filter (by test "
+          "name, file name, keyword, or selecting nothing: exactly the selected tests run, in file order, under their names); "
+          "sequences of run_tests calls IN ONE PROCESS against different systems of the same country package (the fixed system, "
+          "a system built with the reform's legislation, a Reform object of the fixed system, a system with the extension's "
+          "variable, and back), each test judged against an independent engine run on ITS system; bodies that are "
           "not JSON inside request sequences; `api near`: assert_near called directly on scalars, lists, tuples, arrays; listings: "
           "dotted legacy ids, trailing slashes, 404s, parameter nodes, /entities, descriptions / documentation / metadata, "
           "`expected` placeholders, amount and rate scales with brackets introduced later and stopped scales, every variable's "
-          "default value / value type / definition period / entity / possible values. "
+          "default value / value type / definition period / entity / possible values. Round 2: every answer of /calculate and "
+          "/trace (accepted or refused) carries the served package's Country-Package / Country-Package-Version headers; a situation "
+          "the builder refuses is answered with the builder's own error (status = its code or 400, body = its path -> message "
+          "tree, i.e. the path of the faulty value; 404 for an unknown variable); a body that is not JSON gets 400 with an error "
+          "message; per served system one `app` case: `/` (300, points to /spec), the package headers on listings and 404s, "
+          "`/spec` — its paths and methods are exactly the application's routes, its entity schemas list exactly the system's "
+          "variables with their JSON types / enum members and the group entities' roles, its situation and trace schemas name "
+          "exactly the system's entities, `servers` is the request's host, `info.version` the package version. "
           "Non-trivial = an answered request with at least one null slot, any sequence, YAML file, direct call or listing."),
     assumptions=[
         "the engine is abstract in the model: what the built simulation answers (get_variable, calculate, get_index, "
@@ -1834,7 +2055,9 @@ PROP = Prop(
     ],
     partial_theorems=["C20_listings_partial: parameter value history and formula start dates / end as served = those of the "
                       "Parameter / Variable objects, and a reader of the listing recovers the value / formula the engine uses on every "
-                      "day; scales, descriptions, metadata, source links and the /spec document are left to the correspondence"],
+                      "day; scales: C20_listing_scale (build_api_scale transcribed; the reader recovers the brackets in force on every day "
+                      "unless every threshold is null at the latest change date or the first bracket is stopped — the recorded deviation); "
+                      "descriptions, metadata, source links and the /spec document are left to the correspondence"],
     exhaustive_note=("the finite grid value type (7: int, float, bool, str, str with max_length, date, Enum) x layout (3, the same "
                      "expectations in each) x relation to the margin (equal, within, at, just beyond) x margin kind (none, absolute, "
                      "relative, both) is enumerated completely: once in every tier on a population drawn from the run's seed, and "
